@@ -97,42 +97,44 @@ func New(input string) *Lexer {
 }
 
 func (l *Lexer) NextToken() token.Token {
-	if !l.isHTML {
-		l.skipWhitespace()
-	}
-
-	if l.char == 0 {
-		l.tokenBegins()
-		return l.newToken(token.EOF, "")
-	}
-
-	if l.char == '{' && l.peekChar() == '{' {
-		tok := l.bracesToken(token.LBRACES, "{{")
-
-		if l.char == '-' && l.peekChar() == '-' {
-			if !l.skipComment() {
-				return l.newToken(token.ILLEGAL, "{{--")
-			}
-
-			return l.NextToken()
+	for {
+		if !l.isHTML {
+			l.skipWhitespace()
 		}
 
-		return tok
-	}
+		if l.char == 0 {
+			l.tokenBegins()
+			return l.newToken(token.EOF, "")
+		}
 
-	if !l.isHTML && l.char == '}' && l.peekChar() == '}' && l.countCurlyBraces == 0 {
-		return l.bracesToken(token.RBRACES, "}}")
-	}
+		if l.char == '{' && l.peekChar() == '{' {
+			tok := l.bracesToken(token.LBRACES, "{{")
 
-	if !l.isHTML {
-		return l.embeddedCodeToken()
-	}
+			if l.char == '-' && l.peekChar() == '-' {
+				if !l.skipComment() {
+					return l.newToken(token.ILLEGAL, "{{--")
+				}
 
-	if isDirective, _ := l.isDirectiveToken(); isDirective {
-		return l.directiveToken()
-	}
+				continue // lex what follows the comment
+			}
 
-	return l.newToken(token.HTML, l.readHTML())
+			return tok
+		}
+
+		if !l.isHTML && l.char == '}' && l.peekChar() == '}' && l.countCurlyBraces == 0 {
+			return l.bracesToken(token.RBRACES, "}}")
+		}
+
+		if !l.isHTML {
+			return l.embeddedCodeToken()
+		}
+
+		if isDirective, _ := l.isDirectiveToken(); isDirective {
+			return l.directiveToken()
+		}
+
+		return l.newToken(token.HTML, l.readHTML())
+	}
 }
 
 func (l *Lexer) bracesToken(tok token.TokenType, literal string) token.Token {
